@@ -2263,9 +2263,15 @@ def _source_per_task_rule(chk, drv):
         allocs = []
         for gid, tk, idx in hosted:
             vals = {"task": tasks[tk], "client_index_in_task": idx, "global_client_index": gid, "total_clients": len(everyone)}
-            if ta_params is None or set(ta_params) != set(vals):
+            # (a hand-written constructor or a record class: the four fields are the allocator's contract, bound by name)
+            if ta_params is not None and set(ta_params) != set(vals):
                 raise _Cannot(f"TaskAllocation.__init__ takes {ta_params}")
-            ta = m.apply(_Cls(TA), [], vals)
+            try:
+                ta = m.apply(_Cls(TA), [], dict(vals))
+            except _Raised as x:
+                raise _Cannot(f"TaskAllocation(task=, client_index_in_task=, global_client_index=, total_clients=) raises {x}")
+            if not isinstance(ta, _Obj):
+                raise _Cannot("TaskAllocation(..) does not yield an object of the evaluated world")
             ta.c03_key = (tk, idx)
             allocs.append((gid, ta))
         known = {"cfg": cfg, "track": _Obj(None, {"name": "model", "corpora": []}, None, "track"), "task_allocations": allocs, "sampler": _Obj(None, None, None, "sampler"),
@@ -3716,6 +3722,9 @@ VARIANTS = [
     [V("O3.12: parameter sources cached per task NAME (unique within a challenge)", "keep", _D, "            if task not in params_per_task:", "            if task.name not in params_per_task:", "O3.12"),
      V("O3.12: parameter sources cached per task NAME (unique within a challenge)", "keep", _D, "                params_per_task[task] = param_source", "                params_per_task[task.name] = param_source", "O3.12"),
      V("O3.12: parameter sources cached per task NAME (unique within a challenge)", "keep", _D, "            schedule = schedule_for(task_allocation, params_per_task[task])", "            schedule = schedule_for(task_allocation, params_per_task[task.name])", "O3.12")],
+    V("O3.12: the allocation record as a dataclass (benign C02-b8 / C05-b9 shape)", "keep", _D,
+      "class TaskAllocation:\n    def __init__(self, task, client_index_in_task, global_client_index, total_clients):\n",
+      "import dataclasses as _dc\n\n\n@_dc.dataclass(eq=False, repr=False)\nclass TaskAllocation:\n    task: object = None\n    client_index_in_task: int = 0\n    global_client_index: int = 0\n    total_clients: int = 0\n\n    def _unused_init(self, task, client_index_in_task, global_client_index, total_clients):\n", "O3.12"),
     V("O3.12: sources created in a first pass over the allocations", "keep", _D, "        params_per_task = {}\n        for client_id, task_allocation in self.task_allocations:\n            task = task_allocation.task\n            if task not in params_per_task:\n                param_source = track.operation_parameters(self.track, task)\n                params_per_task[task] = param_source\n",
       "        params_per_task = {}\n        for _, ta in self.task_allocations:\n            if ta.task not in params_per_task:\n                params_per_task[ta.task] = track.operation_parameters(self.track, ta.task)\n        for client_id, task_allocation in self.task_allocations:\n            task = task_allocation.task\n", "O3.12"),
     # O3.11 (seed m15): the skipper's contract on values
